@@ -28,6 +28,7 @@ type Verifier struct {
 	declText    string
 	macroMemo   map[string]bool
 	batteryMemo map[string]*batteryResult
+	effAn       *effectAnalysis
 	qaxioms     []*qaxiom
 	wantModel   bool
 	seed        int
